@@ -40,5 +40,7 @@ def run(ctx):
     from rules import c17_table
     c17_table.run(ctx, crate)
     ctx.not_decided("the projection formulae, inverse property, 1e-14 accuracy (float numerics); base_cell_from_proj_coo on points exactly on a diagonal / facet seam (float ties)")
+    from rules import cancellation
+    cancellation.check(ctx, ctx.crate("rel"), ['proj', 'unproj', 'base_cell_from_proj_coo'], floor=8)
     from rules import controls
     controls.guard_controls(ctx)
